@@ -13,6 +13,7 @@ import (
 	"testing"
 	"time"
 
+	adapterpkg "github.com/WuKongIM/WuKongIM/pkg/gateway/protocol/wkproto"
 	codec "github.com/WuKongIM/WuKongIM/pkg/protocol/codec"
 	"github.com/WuKongIM/WuKongIM/pkg/protocol/frame"
 	"github.com/WuKongIM/WuKongIM/pkg/zzverif/ev"
@@ -732,7 +733,18 @@ func c23RunReplay(r *ev.R, rf *ev.ReplayFile, menu []c23MenuFrame, enc []*c23Enc
 		}
 		s := c23BuildSessStream(items, senc[pl.VCase], pl.Shape, pl.Seq)
 		fmt.Printf("replay session-splits: version-case %d session %q frames %v stream(%d)=%s cuts=%v\n", pl.VCase, c23ShapeNames[pl.Shape], s.names, len(s.wire), c23Hex(s.wire), pl.Cuts)
-		v = fd.split(s, pl.Cuts, &c23SplitStats{})
+		// In the full run one Adapter serves the sessions of every shape (as one listener does).
+		// The replay therefore tries the recorded case on a fresh shared Adapter (a) alone and
+		// (b) after one stream was decoded on a session of each shape (first = that shape).
+		for first := -1; first < c23NShapes && v == nil; first++ {
+			c23SharedAdapter = adapterpkg.New()
+			if first >= 0 {
+				warm := c23BuildSessStream(items, senc[pl.VCase], first, []int{len(items) - 6, len(items) - 7})
+				wv := c23NewSessFeeder(pl.VCase, first).split(warm, nil, &c23SplitStats{})
+				fmt.Printf(" adapter first used by a session of shape %q (violation there: %v)\n", c23ShapeNames[first], wv != nil)
+			}
+			v = c23NewSessFeeder(pl.VCase, pl.Shape).split(s, pl.Cuts, &c23SplitStats{})
+		}
 	} else if pl.Section == "splits" {
 		for _, i := range pl.Seq {
 			if i < 0 || i >= len(menu) {
